@@ -255,8 +255,10 @@ def translate(repo: str) -> str:
         "nodes = nodes[1:]",
         "for node in nodes:\n    node._forget_evaluation_memory_()",
         "SymbolGraph().remove_dead_instances()",
+        "self.__dict__['_live_evaluations_'] = self.__dict__.get('_live_evaluations_', 0) + 1",
         "try:\n    yield from map(self._process_result_, self._evaluate__())\n"
-        "finally:\n    for node in nodes:\n        if isinstance(node, Variable):\n            node._forget_evaluation_memory_()",
+        "finally:\n    self.__dict__['_live_evaluations_'] -= 1\n    for node in nodes:\n"
+        "        if isinstance(node, Variable) or not self.__dict__['_live_evaluations_']:\n            node._forget_evaluation_memory_()",
     ]
     if [g for g, _ in st] != EVALUATE:
         for k, (g, node) in enumerate(st):
